@@ -6,6 +6,7 @@ struct C13Op
   int kind;
   int n;       // INIT: argument; LOOP: count
   int cost;    // LOOP: scheduling points per body
+  int query;   // LOOP / NESTED: the body of index 0 asks numTaskingThreads() itself (NESTED: the inner body)
 };
 struct C13Plan
 {
@@ -19,6 +20,7 @@ extern "C" {
 const C13Plan *c13_plan();
 void c13_init_done(int n);
 void c13_query(int reported);
+void c13_query_in_body(int reported);
 void c13_loop_begin(int count);
 void c13_loop_end();
 void c13_body_enter();
